@@ -199,6 +199,8 @@ def gen_sig(seed, k):
     phase = rng.choice(["running", "running", "terminating", "script"])
     if k == 0: S, G, second, phase = 15, 300, None, "running"
     if k == 1: S, G, second, phase = 2, 1200, 2, "running"
+    # corpus: ONE shutdown signal while a unit sits in the grace period of its timeout termination: it is killed at once
+    if k == 2: S, G, second, phase = 2, 300, None, "terminating"
     gap2 = 250
     tests = []
     kinds = ["run_die", "run_ign", "run_late", "delay", "drain", "done", "run_ign", "run_retry"]
